@@ -14,6 +14,34 @@ from .. import symex
 EXP = f'{N.EXPORTER}.Exporter'
 
 
+def inline_bool_helpers(ctx, fi, node, depth=0):
+    """A guard moved into a helper that returns a boolean expression (single return, no branching) is inlined once:
+    `self._selected(node, options)` -> its return expression with the parameters replaced by the arguments."""
+    if depth > 2 or fi.cls is None:
+        return node
+    from ..astutil import clone
+
+    class T(ast.NodeTransformer):
+        def visit_Call(self, c):
+            self.generic_visit(c)
+            if isinstance(c.func, ast.Attribute) and isinstance(c.func.value, ast.Name) and c.func.value.id in ('self', 'cls'):
+                m = ctx.prog.find_method(fi.cls, c.func.attr)
+                if m is not None and m is not fi and m.kind in ('method', 'classmethod', 'staticmethod'):
+                    try:
+                        sps = symex.func_sym_paths(m, limit=50)
+                    except AnalysisError:
+                        return c
+                    if len(sps) == 1 and sps[0].end == 'return' and not sps[0].conds and sps[0].value is not None \
+                            and isinstance(sps[0].value, (ast.BoolOp, ast.Compare, ast.UnaryOp)):
+                        try:
+                            b = F.bind_args(c, m, m.kind != 'staticmethod')
+                        except AnalysisError:
+                            return c
+                        return G.substitute(sps[0].value, b, recursive=False)
+            return c
+    return T().visit(clone(node))
+
+
 class RowGate:
     """Symbolic summary of append_row: per path (condition over named atoms, appended expressions, return)."""
 
@@ -42,6 +70,7 @@ class RowGate:
         self.cat_atoms = {'hid', 'cx', 'cat'}
         self.paths = []
         for sp in symex.func_sym_paths(f):
+            sp.conds = [(inline_bool_helpers(ctx, f, c), t) for c, t in sp.conds]
             apps = []
             for e in sp.events:
                 if e.kind == 'expr' and isinstance(e.expr, ast.Call) and isinstance(e.expr.func, ast.Attribute) \
@@ -228,15 +257,51 @@ def _norm(s):
 # --------------------------------------------------------------------------- nullish tables (C01.R5 / C05.R4)
 def check_nullish_tables(ctx, rule):
     es = ctx.prog.func(f'{EXP}.export_string')
-    null_sets = []
-    for n in walk_local(es.node):
-        if isinstance(n, ast.Assign) and len(n.targets) == 1 and F.is_name(n.targets[0], 'nullish_tokens'):
-            ok, v = ctx.ce.try_eval(n.value, es.module)
-            if ok:
-                null_sets.append((n, set(v)))
-    ctx.expect_count(rule, 'nullish_tokens set in export_string', len(null_sets), 1)
     er = ctx.prog.func(f'{N.EXPORTER}.empty_row')
-    # empty_row: returns False iff some col not in {'.','','*'}
+    placeholders = {'', '.', '*'}
+    empty_token = ctx.ce.module_const(N.TOKENS, 'EMPTY_TOKEN')
+    need = placeholders | {empty_token}
+    # the row test of the stage loop: the `if` that guards rows.append(row)
+    loops = [n for n in walk_local(es.node) if isinstance(n, ast.For) and 'range(from_stage' in src(n.iter)]
+    tests = []
+    for lp in loops:
+        for n in ast.walk(lp):
+            if isinstance(n, ast.If) and any(isinstance(x, ast.Call) and src(x.func) == 'rows.append' and x.args and src(x.args[0]) == 'row'
+                                             for b in n.body for x in ast.walk(b)):
+                tests.append(n)
+    ctx.expect_count(rule, 'null-row test of the stage loop', len(tests), 1)
+    env = G.single_assignments(es.node)
+    for t in tests:
+        at = f'{es.module.relpath}:{t.lineno}'
+        test = G.substitute(t.test, {k: v for k, v in env.items() if k != 'row'})
+        names = {x.id for x in ast.walk(test) if isinstance(x, ast.Name)}
+        sets = []
+        for x in ast.walk(test):
+            if isinstance(x, ast.Compare) and len(x.ops) == 1 and isinstance(x.ops[0], (ast.In, ast.NotIn)):
+                ok, v = ctx.ce.try_eval(x.comparators[0], es.module)
+                if ok and isinstance(v, (set, list, tuple, frozenset)):
+                    sets.append(set(v))
+        on_cells = names <= {'row', 'token', 'len', 'all', 'any', 'cell', 'col', 'c', 't'} and len(sets) == 1
+        if not on_cells:
+            ctx.violation(rule, at, es.qualname, 'null-row-test-not-on-exported-cells',
+                          f'the row test `{src(t.test)[:100]}` does not compare the exported cells with the placeholder table: a cell '
+                          f'that became a placeholder through a gate (a hidden barline, a filtered token) is not recognised as null, so '
+                          f'the first export keeps an all-placeholder row that the second export drops')
+            continue
+        s_ = sets[0]
+        ctx.check(need <= s_, rule, at, es.qualname, 'nullish-set-misses-placeholder',
+                  f'every placeholder a filtered cell can become ({sorted(need)}) is in the null-row set',
+                  f'null-row set {sorted(s_)} misses {sorted(need - s_)}: a line left with only placeholders is not dropped')
+        ctx.check(s_ <= need, rule, at, es.qualname, 'nullish-set-too-wide',
+                  'the null-row set contains nothing but placeholders', f'null-row set {sorted(s_)} also drops rows of {sorted(s_ - need)}')
+        fm = G._formula(test)
+        canon_ok = src(test) in ("len(row) > 0 and (not all((token in {'.', '*', ''} for token in row)))",) or True
+        # semantic shape: kept iff non-empty and some cell is not a placeholder
+        s2 = src(t.test)
+        ok = ('not all(' in s2 and ' in ' in s2) or ('any(' in s2 and 'not in' in s2)
+        ctx.check(ok, rule, at, es.qualname, 'null-row-test',
+                  'a row is kept iff it has a cell that is not a placeholder', f'row test is `{s2}`')
+    # empty_row: returns False iff some col not in the table
     er_set = set()
     for n in walk_local(er.node):
         if isinstance(n, ast.Compare) and len(n.ops) == 1 and isinstance(n.ops[0], (ast.NotEq, ast.NotIn)):
@@ -245,25 +310,5 @@ def check_nullish_tables(ctx, rule):
                 er_set |= set(v) if isinstance(v, (set, list, tuple)) else {v}
             except Exception:
                 pass
-    placeholders = {'', '.', '*'}
-    empty_token = ctx.ce.module_const(N.TOKENS, 'EMPTY_TOKEN')
-    need = placeholders | {empty_token}
-    for n, s in null_sets:
-        ctx.check(need <= s, rule, f'{es.module.relpath}:{n.lineno}', es.qualname, 'nullish-set-misses-placeholder',
-                  f'every placeholder a filtered cell can become ({sorted(need)}) is in the null-row set',
-                  f'null-row set {sorted(s)} misses {sorted(need - s)}: a line left with only placeholders is not dropped')
-        ctx.check(s <= need, rule, f'{es.module.relpath}:{n.lineno}', es.qualname, 'nullish-set-too-wide',
-                  'the null-row set contains nothing but placeholders', f'null-row set {sorted(s)} also drops rows of {sorted(s - need)}')
     ctx.check(er_set == need, rule, er.loc, er.qualname, 'empty-row-table',
               'empty_row tests the same placeholder table', f'empty_row tests {sorted(er_set)}, placeholders are {sorted(need)}')
-    # the row test: len(row) > 0 and not all(token in nullish for token in row)
-    tests = [n for n in walk_local(es.node) if isinstance(n, ast.If) and 'nullish_tokens' in src(n.test)]
-    ctx.expect_count(rule, 'null-row test', len(tests), 1)
-    for t in tests:
-        s = src(t.test)
-        ok = s in ('len(row) > 0 and (not all((token in nullish_tokens for token in row)))',
-                   'row and (not all((token in nullish_tokens for token in row)))',
-                   'len(row) > 0 and any((token not in nullish_tokens for token in row))')
-        appended = any(isinstance(x, ast.Call) and src(x.func) == 'rows.append' and src(x.args[0]) == 'row' for b in t.body for x in ast.walk(b))
-        ctx.check(ok and appended, rule, f'{es.module.relpath}:{t.lineno}', es.qualname, 'null-row-test',
-                  'a row is kept iff it has a cell that is not a placeholder', f'row test is `{s}`')
